@@ -163,16 +163,16 @@ class State:
 
     # ---- containers ------------------------------------------------------------------------
     def dom(self, r):
-        return z3.Select(self.heap.c_dom, r)
+        return z3.simplify(z3.Select(self.heap.c_dom, r))  # read-over-write resolved syntactically where the index is literal-equal
 
     def cmap(self, r):
-        return z3.Select(self.heap.c_map, r)
+        return z3.simplify(z3.Select(self.heap.c_map, r))  # read-over-write resolved syntactically where the index is literal-equal
 
     def clen(self, r):
-        return z3.Select(self.heap.c_len, r)
+        return z3.simplify(z3.Select(self.heap.c_len, r))  # read-over-write resolved syntactically where the index is literal-equal
 
     def cseq(self, r):
-        return z3.Select(self.heap.c_seq, r)
+        return z3.simplify(z3.Select(self.heap.c_seq, r))  # read-over-write resolved syntactically where the index is literal-equal
 
     def container_wf(self, r):
         """true facts about every Python dict/set/list (assumed on access)"""
